@@ -6,7 +6,7 @@ from vlib.ref import b58
 from vlib.util import call, expect_eq, must_return
 
 PROPERTY_ID = "C10"
-OPTIMIZED = ['checksum']   # clauses run a second time under `python -O` (assert statements stripped)
+OPTIMIZED = ['checksum', 'bytes', 'strings']   # clauses run a second time under `python -O` (assert statements stripped)
 RULE = ("byte strings are built as z zero bytes + tail (construction); invalid Base58Check strings "
         "are constructed from valid ones by byte-level corruption re-encoded with the reference "
         "encoder and by string-level edits; the reference decoder is the oracle")
